@@ -16,6 +16,9 @@ DAILY_PROFILES = {
     "dev-nofinal": ("current", {"developer_mode": True, "silent_developer_mode": True, "alpha_final_type": None, "alpha_final": None, "final_bounds_scalar": None}),
     "dev-nogauss": ("current", {"developer_mode": True, "silent_developer_mode": True, "split_selection": {"reduce_splits_by_gaussian": False, "reduce_splits_num_std": None}}),
     "custom-maps": ("current", {"season": {"march": "winter", "october": "summer", "may": "summer"}, "weekday_weekend": {"friday": "weekend"}, "uncertainty_alpha": 0.2}),
+    # a day-type map with a THIRD label (accepted by the settings): under the legacy profile the model is never split by day type, every day is
+    # predicted by a full-week sub-model
+    "legacy-third-daytype": ("legacy", {"weekday_weekend": {"options": ["weekday", "weekend", "closed"], "sunday": "closed"}}),
     "legacy-dev-splits": ("legacy", {"developer_mode": True, "silent_developer_mode": True,
                                      "split_selection": {"allow_separate_weekday_weekend": True, "allow_separate_summer": True, "allow_separate_winter": True, "allow_separate_shoulder": True}}),
 }
@@ -222,5 +225,5 @@ class Family:
 # every alternative fitting path of the hourly family (other scaler, adaptive re-weighting) is in the quick tier too: state that only one of them keeps
 # (fitted scalers, warm-started estimators) is invisible under the default profile
 FAMILIES_QUICK = ["daily:current", "daily:legacy", "billing", "hourly:default", "hourly:default:ghi", "caltrack", "hourly:supp", "hourly:robust", "hourly:adaptive", "hourly:minsize5:oddcells"]
-FAMILIES_ALL = ["daily:" + p for p in DAILY_PROFILES] + ["billing"] + ["hourly:" + p for p in HOURLY_PROFILES] + \
+FAMILIES_ALL = ["daily:" + p for p in DAILY_PROFILES if p != "legacy-third-daytype"] + ["billing"] + ["hourly:" + p for p in HOURLY_PROFILES] + \
                ["hourly:default:ghi", "hourly:robust:ghi", "hourly:bins8:ghi", "hourly:default:irregular", "hourly:supp:ghi"] + ["caltrack"]
